@@ -152,13 +152,15 @@ theorem callback_at_most_once (cfg : Cfg) (h : List Input) (hd : (histToks h).No
 
 /-- … and a callback runs only for an ACK bearing its namespace and id, with the acknowledged
     arguments: an ACK `(ns, id, args)` invokes exactly the callback stored under `(ns, id)` and
-    removes it; every other piece of the client invokes no callback (`CbStep`, Sio/Lemmas/ClientAck). -/
+    removes it — the entry is gone before the callback runs, so neither a callback that raises nor
+    a duplicate ACK delivered from inside the callback can make it run again; every other piece of the client invokes no callback (`CbStep`, Sio/Lemmas/ClientAck). -/
 theorem callback_on_matching_ack (c : Cli) (ns : Option Ns) (i : Nat) (args : List J)
     (e : Ns × Nat × Cb) (hf : c.cbs.find? (isKey (nsOr ns) i) = some e) :
     cbOuts (handleAck c ns (some i) (some (.arr args))).2 = [(e.2.2, args)]
     ∧ (handleAck c ns (some i) (some (.arr args))).1.cbs = c.cbs.filter (fun x => !isKey (nsOr ns) i x) := by
   unfold handleAck
-  simp [hf, ackOuts, cbOuts_cons, cbOf]
+  simp only [hf]
+  exact ⟨by rw [cbOuts_ackOuts], trivial⟩
 
 theorem callback_only_by_ack (cfg : Cfg) (c : Cli) (e : Ev) :
     CbStep c (deliver cfg c e).1 (deliver cfg c e).2 := cbStep_deliver cfg c e
